@@ -144,6 +144,75 @@ static void sub_random(const args_t *a, long c, rng_t *r)
 	free(m);
 }
 
+/* ---- buffers of 2 GiB and more: a sparse anonymous mapping (zero pages) with a few random islands.  The reference is
+ * computed piecewise: islands bit by bit, zero runs through the GF(2) "append n zero bytes" operator (the crc32_combine
+ * construction, here for the Castagnoli polynomial), so no other implementation ever walks the whole buffer. */
+#include <sys/mman.h>
+static uint32_t gf2_times(const uint32_t *mat, uint32_t vec) { uint32_t sum = 0; while (vec) { if (vec & 1) sum ^= *mat; vec >>= 1; mat++; } return sum; }
+static void gf2_square(uint32_t *sq, const uint32_t *mat) { for (int n = 0; n < 32; n++) sq[n] = gf2_times(mat, mat[n]); }
+static uint32_t crc_combine(uint32_t crc1, uint32_t crc2, uint64_t len2)
+{
+	uint32_t even[32], odd[32];
+	if (len2 == 0) return crc1;
+	odd[0] = 0x82F63B78u; uint32_t row = 1;
+	for (int n = 1; n < 32; n++) { odd[n] = row; row <<= 1; }
+	gf2_square(even, odd); gf2_square(odd, even);
+	do {
+		gf2_square(even, odd);
+		if (len2 & 1) crc1 = gf2_times(even, crc1);
+		len2 >>= 1;
+		if (!len2) break;
+		gf2_square(odd, even);
+		if (len2 & 1) crc1 = gf2_times(odd, crc1);
+		len2 >>= 1;
+	} while (len2);
+	return crc1 ^ crc2;
+}
+static uint32_t crc_of_zeros(uint64_t n)
+{
+	/* crc(0^n) by doubling: z(2m) = combine(z(m), z(m), m) */
+	uint8_t z = 0; uint32_t acc = 0 /* crc of the empty string */, pw = ref_crc(&z, 1); uint64_t pwlen = 1, acclen = 0;
+	while (n) {
+		if (n & 1) { acc = crc_combine(acc, pw, pwlen); acclen += pwlen; }
+		pw = crc_combine(pw, pw, pwlen); pwlen *= 2; n >>= 1;
+	}
+	(void)acclen;
+	return acc;
+}
+static void sub_huge(const args_t *a, long c, rng_t *r)
+{
+	(void)a;
+	static const uint64_t LEN[] = {(1ULL << 31) + 43, (1ULL << 32) + 8005, 1ULL << 32, (1ULL << 32) - 1, (1ULL << 31) - 5};
+	uint64_t len = LEN[c % 5]; unsigned al = (c % 5 == 0) ? 3 : 0;
+	/* self-check of the zero-run operator against the plain loop */
+	{ static uint8_t zs[5000]; for (size_t n = 0; n < 5000; n += 617) if (crc_of_zeros(n) != ref_crc(zs, n)) { fprintf(stderr, "harness: zero-run operator wrong at %zu\n", n); exit(99); } }
+	uint8_t *map = mmap(NULL, len + 4096, PROT_READ | PROT_WRITE, MAP_PRIVATE | MAP_ANONYMOUS | MAP_NORESERVE, -1, 0);
+	if (map == MAP_FAILED) { inconclusive("cannot map %" PRIu64 " bytes", len); return; }
+	uint8_t *buf = map + al;
+	/* islands of random bytes at the start, around 2^31, around 2^32 (if inside) and at the very end */
+	uint64_t isl[4] = {0, (1ULL << 31) - 300, (1ULL << 32) - 300, len - 700}; size_t il = 600;
+	uint32_t want = 0; uint64_t pos = 0;
+	for (int i = 0; i < 4; i++) {
+		if (isl[i] + il > len || isl[i] < pos) continue;
+		for (size_t j = 0; j < il; j++) buf[isl[i] + j] = (uint8_t)rnd64(r);
+		want = crc_combine(want, crc_of_zeros(isl[i] - pos), isl[i] - pos);
+		want = crc_combine(want, ref_crc(buf + isl[i], il), il);
+		pos = isl[i] + il;
+	}
+	want = crc_combine(want, crc_of_zeros(len - pos), len - pos);
+	uint32_t got = mtbl_crc32c(buf, len);
+	if (got != want) viol("C17/mtbl_crc32c-wrong", "buffer of %" PRIu64 " bytes (alignment %u): mtbl_crc32c=%08x reference=%08x", len, al, got, want);
+	got = my_crc32c_slicing(buf, len);
+	if (got != want) viol("C17/slicing-wrong", "buffer of %" PRIu64 " bytes: my_crc32c_slicing=%08x reference=%08x", len, got, want);
+#if defined(__x86_64__)
+	if (have_sse42) { got = my_crc32c_sse42(buf, len); if (got != want) viol("C17/sse42-wrong", "buffer of %" PRIu64 " bytes: my_crc32c_sse42=%08x reference=%08x", len, got, want); }
+#endif
+	munmap(map, len + 4096);
+	STAT("huge.buffers_ge_2GiB");
+	stat_max("max.random.len", len);
+	case_hash(len);
+}
+
 int main(int argc, char **argv)
 {
 	args_t a;
@@ -157,6 +226,7 @@ int main(int argc, char **argv)
 	else if (!strcmp(a.sub, "lenalign")) f = sub_lenalign;
 	else if (!strcmp(a.sub, "bytepos")) f = sub_bytepos;
 	else if (!strcmp(a.sub, "random")) f = sub_random;
+	else if (!strcmp(a.sub, "huge")) f = sub_huge;
 	else return 98;
 	if (want_sample()) sample("%s: mtbl_crc32c, my_crc32c_slicing%s compared with a bit-at-a-time CRC-32C on exact-size ASan heap buffers", a.sub, have_sse42 ? ", my_crc32c_sse42" : " (sse4.2 NOT available: hardware path not covered)");
 	return run_cases(&a, f);
